@@ -270,7 +270,7 @@ int main(int argc, char** argv) {
   vh::Args args(argc, argv);
   { std::stringstream ss(args.get("props")); std::string p; while (std::getline(ss, p, ',')) if (!p.empty()) g_props.insert(p); }
   Worlds();   // built once in the parent, inherited by the forked batch workers
-  vh::IsoOptions iso; iso.batch = 500; iso.watchdogSeconds = 90;
+  vh::IsoOptions iso; iso.batch = 500; iso.watchdogSeconds = 300;   // five evaluations that run into the iteration limit take 5-15 s under ASan (vp check 8: > 10 s)
   // a fault while an accepted expression is evaluated is C02's; expressions the rules reject are evaluated only when the
   // implementation accepts them, so under --props C02 every fault is attributed to C02
   iso.faultPropertyOf = [](const json& c) { return std::string((c["ty"].get<std::string>().rfind("BAD", 0) == 0 && !g_props.count("C02")) ? "C04" : "C02"); };
